@@ -1,6 +1,7 @@
 package bellatrix
 
 import (
+	"fmt"
 	"context"
 	"errors"
 	"time"
@@ -50,7 +51,7 @@ func (e *vFcEngine) answer(kind int) (bool, error) {
 	case 1:
 		return false, nil
 	}
-	return false, errors.New("engine error")
+	return false, vEngErr()
 }
 func (e *vFcEngine) BellatrixIsValidBlockHash(ctx context.Context, p *ExecutionPayload) (bool, error) {
 	e.calls = append(e.calls, vFcEngCall{kind: 0, payload: p, block: p.BlockHash})
@@ -147,6 +148,10 @@ func VerifHarness_C18_bellatrix_payload() {
 	eng := &vFcEngine{verdicts: [2]int{zzverif.Choose(3), zzverif.Choose(3)}}
 	polls := 0
 	ctx := vFcCtx{polls: &polls, failAt: zzverif.Choose(3) - 1}
+	vEngErrKind = 0
+	if (eng.verdicts[0] == 2 || eng.verdicts[1] == 2) && ctx.failAt < 0 {
+		vEngErrKind = zzverif.Choose(3) // kind of the engine's error, with a live caller context
+	}
 	zzverif.Reach("bellatrix-payload")
 	err := ProcessExecutionPayload(ctx, spec, st, p, eng)
 	// reference
@@ -189,4 +194,20 @@ func VerifHarness_C18_bellatrix_payload() {
 	for k, c := range eng.calls {
 		zzverif.Assert(c.kind == k && c.payload == p && c.block == p.BlockHash, "each engine query is about this payload")
 	}
+}
+
+
+// vEngErrKind: the kind of error a failing engine query reports (chosen per path by the harness): a plain error, or an
+// error wrapping context.DeadlineExceeded / context.Canceled as an engine client whose own request context expired
+// would return it - while the caller's context is still live. Either way the payload was not approved.
+var vEngErrKind int
+
+func vEngErr() error {
+	switch vEngErrKind {
+	case 1:
+		return fmt.Errorf("engine request failed: %w", context.DeadlineExceeded)
+	case 2:
+		return context.Canceled
+	}
+	return errors.New("engine error")
 }
